@@ -1,17 +1,19 @@
 import Driver.SchemaIO
 /-! Line-protocol driver of the schema / payload-validation model, area c22.
-ops:  reset | schema <tokens> | val <depth> <tid-tag> <tid-n> <payload-hex>  -/
+ops:  reset | schema <sbor-hex (runner only)> <tokens> | val <depth> <tid-tag> <tid-n> <payload-hex> <v|u>
+    | tval <depth> <tid-tag> <tid-n> <payload-hex> <rust type name (runner only)>  -/
 open Radix Radix.Proto Radix.Sbor Radix.Schema
 open Radix.SchemaIO
 
 def stepLine (s : Option Schema) (line : String) : Option Schema × String :=
   match words line with
   | ["reset"] => (none, "ok")
-  | "schema" :: ws =>
+  | "schema" :: _hex :: ws =>
     (match parseSchema ws with
      | some S => (some S, "ok")
      | none => (s, "bad-op"))
-  | ["val", depth, tag, n, payload] => (s, valLine s depth tag n payload)
+  | ["val", depth, tag, n, payload, _expect] => (s, valLine s depth tag n payload)
+  | ["tval", depth, tag, n, payload, _type] => (s, valLine s depth tag n payload)
   | _ => (s, "bad-op")
 
 def main : IO Unit := run stepLine none
